@@ -189,19 +189,17 @@ def scope(ctx):
     Gs = guard_region(ma, req_some, True, within=Gc)
     Gn = guard_region(ma, req_some, False, within=Gc)
     n = 0
-    def upv(at):
-        return {a[2] for a in at if a[0] == "field" and a[1].startswith("{env of")}
     # destructive sites: deletion API sites located in main's view, and calls (in main's view) of local fns that delete
     items = []
     for (b, bb, t, rv, nb) in delete_sites(ctx):
         if rv.name == ma.name:
-            items.append((nb, classify_delete_site(ctx, rv, nb), upv(rv.prov.operand_atoms(t_in(rv, nb)["args"][0])), short(r.outer_fn(b).name)))
+            items.append((nb, classify_delete_site(ctx, rv, nb), r.root_env_fields(rv, t_in(rv, nb)["args"][0]), short(r.outer_fn(b).name)))
         else:
             role = classify_delete_site(ctx, rv, nb)
             raw = f.bodies[rv.name]
             for (cv, cbb, ct) in r.callers_of(raw, prefer=[]):
                 if cv.name == ma.name:
-                    items.append((cbb, role, upv(cv.prov.operand_atoms(ct["args"][0])) if ct["args"] else set(), short(r.fn_of(raw).name)))
+                    items.append((cbb, role, r.root_env_fields(cv, ct["args"][0]) if ct["args"] else set(), short(r.fn_of(raw).name)))
     for (bb, role, ups, lab) in items:
         n += 1
         if role == "state":
